@@ -663,6 +663,27 @@ pub fn run(s: &Scn, st: &mut Stats, check_structure: bool) -> Verdict {
         };
         return run_generic(s, st, check_structure, k, &|known| crate::ops_hash::varsha::VarShaCircuit { case: case.clone(), known });
     }
+    if case.op.starts_with("vp.") {
+        let key = "vp.poseidon".to_string();
+        let cached = k_cache().lock().unwrap().get(&key).copied();
+        let k = match cached {
+            Some(k) => k,
+            None => {
+                let c0 = crate::ops_hash::varpos::VarPosCircuit { case: case.clone(), known: true };
+                let mut found = None;
+                for kk in 8..=14u32 {
+                    if let Ok(Ok(())) = catch(|| rayon::sim::isolated(1, || midnight_proofs::dev::MockProver::run(kk, &c0, vec![vec![], vec![]]).map(|_| ()))) {
+                        found = Some(kk);
+                        break;
+                    }
+                }
+                let Some(k) = found else { return Verdict::Harness("vp.poseidon: no k <= 14 fits".into()) };
+                k_cache().lock().unwrap().insert(key, k);
+                k
+            }
+        };
+        return run_generic(s, st, check_structure, k, &|known| crate::ops_hash::varpos::VarPosCircuit { case: case.clone(), known });
+    }
     if case.op.starts_with("hr.") {
         // the size depends on the number of blocks only
         let key = format!("hr.ripemd160/{}", (case.p[0] + 9).div_ceil(64));
@@ -818,8 +839,14 @@ fn run_generic<C: midnight_proofs::plonk::Circuit<Fq>>(s: &Scn, st: &mut Stats, 
     // large circuits (foreign-curve scalar multiplications, hashes): a few plans per run
     let mut plans = plans;
     // variable-length hashing: adversarial content of the unused tail of the buffer
-    if case.op.starts_with("vh.") && plans.is_empty() && case.p.get(1).copied().unwrap_or(0) > 128 {
-        let f = Fq::from(case.p[1]);
+    let filler_value = if case.op.starts_with("vh.") && case.p.get(1).copied().unwrap_or(0) > 128 {
+        Some(Fq::from(case.p[1]))
+    } else if case.op.starts_with("vp.") && case.p.get(1) == Some(&1) {
+        case.ins.last().map(|x| x.0)
+    } else {
+        None
+    };
+    if let (Some(f), true) = (filler_value, plans.is_empty()) {
         let cand: Vec<&(usize, usize, Fq)> = honest.trace.iter().filter(|t| t.2 == f).collect();
         let mut rng = Prng::new(s.fault_seed, "filler");
         if !cand.is_empty() {
